@@ -391,3 +391,106 @@ func debControlFields() []FSpec {
 		{"Description", "Description", "scalar", []Variant{multi("example package", "long text", ".", "more"), scalar("short")}},
 	}
 }
+
+// withAudit extends a field table with variants built from the literals a change introduced into the code
+// (alphabet audit): strings as scalar values, list elements, architecture / package names, versions; integers as
+// numbers, list lengths and file counts.
+func withAudit(fields []FSpec) []FSpec {
+	strs := gen.AuditStrings(func(s string) bool { return gen.OneLine(s) && strings.TrimSpace(s) == s && !strings.HasPrefix(s, "#") }, 2)
+	names := gen.AuditStrings(func(s string) bool {
+		return gen.Nameish(s) && !strings.ContainsAny(s, "-+.") && (s[0] >= 'a' && s[0] <= 'z' || s[0] >= '0' && s[0] <= '9')
+	}, 2)
+	ints := gen.AuditInts(0, 1<<31, 4)
+	var lens []int64
+	for _, n := range gen.AuditInts(2, 40, 3) {
+		lens = append(lens, n)
+	}
+	if len(strs) == 0 && len(names) == 0 && len(ints) == 0 {
+		return fields
+	}
+	out := make([]FSpec, len(fields))
+	copy(out, fields)
+	for i := range out {
+		f := &out[i]
+		f.Vars = append([]Variant{}, f.Vars...)
+		switch f.Kind {
+		case "scalar":
+			if len(f.Vars[0].Lines) == 1 {
+				for _, t := range strs {
+					f.Vars = append(f.Vars, scalar(t), scalar("x "+t+" y"))
+				}
+			}
+		case "int":
+			for _, n := range ints {
+				f.Vars = append(f.Vars, intv(int(n)))
+			}
+		case "version":
+			for _, t := range gen.AuditStrings(gen.Versionish, 2) {
+				if t[0] >= '0' && t[0] <= '9' && !strings.HasSuffix(t, "-") && !strings.Contains(t, ":") {
+					f.Vars = append(f.Vars, ver(t), ver("1:2."+t+"-1"))
+				}
+			}
+			for _, n := range ints {
+				f.Vars = append(f.Vars, ver(fmt.Sprint(n)), ver(fmt.Sprintf("%d:1.0-%d", n, n)))
+			}
+		case "arch":
+			for _, t := range names {
+				f.Vars = append(f.Vars, arch(t), arch(t+"-any"), arch("gnu-"+t+"-amd64"))
+			}
+		case "archlist":
+			for _, t := range names {
+				f.Vars = append(f.Vars, archs(t), archs("amd64", t+"-any", "any-"+t))
+			}
+		case "dep":
+			for _, t := range names {
+				f.Vars = append(f.Vars, dep(t+" (>= 1) | x ["+t+"], y:"+t))
+			}
+			for _, n := range lens {
+				var rel []string
+				for k := int64(0); k < n; k++ {
+					rel = append(rel, fmt.Sprintf("p%d (>= %d)", k, k))
+				}
+				f.Vars = append(f.Vars, dep(strings.Join(rel, ", ")))
+			}
+		case "list":
+			sep := " "
+			if strings.Contains(f.Vars[0].Lines[0], ",") {
+				sep = ", "
+			}
+			for _, t := range names {
+				f.Vars = append(f.Vars, list([]string{"a", t, "c"}, "a"+sep+t+sep+"c"))
+			}
+			for _, n := range lens {
+				var el []string
+				for k := int64(0); k < n; k++ {
+					el = append(el, fmt.Sprintf("e%d", k))
+				}
+				f.Vars = append(f.Vars, list(el, strings.Join(el, sep)))
+			}
+		case "md5", "sha1", "sha256", "chfiles":
+			for _, n := range lens {
+				var es []fileEntry
+				for k := int64(0); k < n; k++ {
+					es = append(es, fileEntry{fmt.Sprintf("%032x", k+1), int(k) + 1, fmt.Sprintf("f%d.tar.gz", k), "devel", "optional"})
+				}
+				alg := f.Kind
+				if alg == "chfiles" {
+					alg = "changes"
+				}
+				if f.Key != "Conffiles" {
+					f.Vars = append(f.Vars, files(alg, es...))
+				}
+			}
+			for _, n := range ints {
+				if f.Key != "Conffiles" {
+					alg := f.Kind
+					if alg == "chfiles" {
+						alg = "changes"
+					}
+					f.Vars = append(f.Vars, files(alg, fileEntry{"00ff", int(n), "big.tar", "devel", "optional"}))
+				}
+			}
+		}
+	}
+	return out
+}
